@@ -41,15 +41,19 @@ def payloads(kind, props=False):
         out += [('lone-quote', "'"), ('lone-quote', '"')]
         out += [('lone-bracket', b) for b in '{}[]']
         out += [('unterminated-comment', x) for x in ('/* never closed', '/*/', '/*/ never closed', '/**', '/* *', '/* * /', '/*')]
+        out += [('stray-bom', '\ufeff')]
         if ctx in ('top', 'end'):
-            out += [('stray-word', 'zzzstray'), ('stray-word', 'zzz stray words')]
+            out += [('stray-word', 'zzzstray'), ('stray-word', 'zzz stray words'), ('non-ascii-bare-word', 'тест'), ('non-ascii-bare-word', 'naïve')]
+        if ctx in ('enum_body', 'group_body', 'indexes_body'):
+            out += [('non-ascii-bare-word', 'тест'), ('non-ascii-bare-word', 'élément'), ('non-ascii-bare-word', '日本')]
     elif kind.startswith('eol:'):
         out += [('stray-symbol', s) for s in SYMS[:2]]
         out += [('lone-quote', "'"), ('lone-quote', '"')]
         out += [('lone-bracket', b) for b in '{}[]']
         out += [('unterminated-comment', x) for x in ('/* never closed', '/*/', '/*/ x', '/**', '/* * /')]
+        out += [('stray-bom', '\ufeff')]
     elif kind.startswith('gap:'):
-        out += [('stray-symbol', s) for s in SYMS[:2]]
+        out += [('stray-symbol', s) for s in SYMS[:2]] + [('stray-bom', '\ufeff')]
         if kind == 'gap:col:before-settings':
             out += [('stray-word-after-type', 'zzzstray'), ('stray-word-after-type', 'garbage words')]
     elif kind.startswith('fault:tok:'):
@@ -82,6 +86,9 @@ def plan(tier, seed):
 
 def one(sh, doc, sseed, slot_no, kind, fclass, text, props):
     bad = surface.render(doc, sseed, KNOBS, inject={slot_no: text})
+    if fclass == 'stray-bom' and bad.startswith('\ufeff') and not bad.startswith('\ufeff\ufeff'):
+        sh.count('obs.leading_bom_is_not_a_fault')
+        return
     sh.case(bad, nontrivial=True, sample={'fault': fclass, 'position': position_class(kind), 'payload': text, 'text': bad[:900]})
     sh.count(f'obs.fault.{fclass}')
     sh.count(f'obs.position.{position_class(kind).split(":")[0]}')
@@ -180,6 +187,25 @@ HANDMADE = [      # (fault class, document): a closing quote that is escaped doe
     ('second-settings-list', 'Table a [headercolor: #fff] [note: \'n\'] {\n  x int\n}\n'),
     ('second-settings-list', 'Table a {\n  x int\n  indexes {\n    x [unique] [name: \'n\']\n  }\n}\n'),
     ('second-settings-list', 'Enum e {\n  a [note: \'n\'] [note: \'m\']\n}\n'),
+] + [
+    # the number literal is digits[.digits]: nothing else is a number
+    ('malformed-number', 'Table t {\n  a int [default: ' + lit + tail + ']\n}\n')
+    for lit in ('12.', '1.', '.5', '1e5', '0x10', '1_000', '1,5', '1. 5', '12.e', '١٢', '1.2.', '5..')
+    for tail in ('', ', not null')
+] + [
+    # bare names are ASCII letters, digits and underscores: a bare word with other letters / digits is not a name
+    ('non-ascii-bare-word', doc_) for doc_ in (
+        'Table commandé {\n  id int\n}\n', 'Table t {\n  naïve varchar\n}\n', 'Table t {\n  a chaîne\n}\n',
+        'Enum e {\n  a\n  тест\n}\n', 'Enum kind٣ {\n  a\n}\n', 'Table t {\n  id int\n}\nTableGroup g {\n  t\n  日本\n}\n',
+        'Table t {\n  id int [ref: > t.ïd]\n}\n', 'Table t as ü {\n  id int\n}\n', 'Project π {\n  k: \'v\'\n}\n',
+        'Table t {\n  id int\n  indexes {\n    ïd\n  }\n}\n', 'Table s.té {\n  id int\n}\n', 'Table t {\n  id int [ключ: \'v\']\n}\n')
+] + [
+    # U+FEFF is a byte order mark only at the very start of the text; anywhere else it is a stray character
+    ('stray-bom', doc_) for doc_ in (
+        'Table t {\n  id int\n}\n\ufeff', 'Table t {\n  id int\n}\n\ufeffEnum e {\n  a\n}\n', 'Table t {\n  \ufeffid int\n}\n',
+        'Ta\ufeffble t {\n  id int\n}\n', 'Table t\ufeff {\n  id int\n}\n', 'Table t {\n  id int [pk\ufeff]\n}\n',
+        'Table t {\n  i\ufeffd int\n}\n', ' \ufeffTable t {\n  id int\n}\n', '\ufeff\ufeffTable t {\n  id int\n}\n',
+        'Table t {\n  id int \ufeff\n}\n', 'Table t {\n  id \ufeff int\n}\n')
 ] + [
     # a bare word of a particular length and nothing else on the line: still a column without a type
     ('column-without-type', 'Table t {\n  ' + 'a' * n + '\n}\n') for n in (1, 63, 64, 127, 128, 129, 130, 255, 256, 257, 300, 1000, 5000)
